@@ -97,7 +97,12 @@ pub(crate) fn run_case(fam: &Family, order: &[u8]) -> RxResult {
     net.poll();
     res.tx_frames = net.dev.tx.len();
     res.polls = net.polls;
-    // drain the socket
+    drain(&mut net, h, fam, &payloads, &mut res);
+    res
+}
+
+/// take everything out of the socket and classify it against the datagrams of the family
+fn drain(net: &mut Net, h: SocketHandle, fam: &Family, payloads: &[Vec<u8>], res: &mut RxResult) {
     for _ in 0..16 {
         if fam.raw {
             let s = net.sockets.get_mut::<raw::Socket>(h);
@@ -115,7 +120,7 @@ pub(crate) fn run_case(fam: &Family, order: &[u8]) -> RxResult {
                         wc::Addr::V4(a) => a,
                         _ => [0; 4],
                     };
-                    classify(fam, &payloads, pl, None, Some(dst), &mut res);
+                    classify(fam, payloads, pl, None, Some(dst), res);
                 }
                 Ok(_) => res.bad.push(("wrong-header", "raw socket got a non-IPv4 packet".into())),
                 Err(e) => res.bad.push(("malformed", format!("raw socket got an inconsistent packet: {} ({} bytes)", e, pkt.len()))),
@@ -129,10 +134,9 @@ pub(crate) fn run_case(fam: &Family, order: &[u8]) -> RxResult {
                 res.bad.push(("wrong-endpoint", format!("udp socket got a datagram from {}", ep)));
                 continue;
             }
-            classify(fam, &payloads, &pl, Some(ep.port), None, &mut res);
+            classify(fam, payloads, &pl, Some(ep.port), None, res);
         }
     }
-    res
 }
 
 /// `run_case` with every call into smoltcp isolated: a panic becomes a localised violation
@@ -635,6 +639,11 @@ pub(crate) fn run_rx(rep: &mut Report, tier: Tier) {
                 "cases_that_panicked": t.panics}),
         );
     }
+    let ex = run_expiry(rep, tier);
+    cases += ex.cases;
+    frames += ex.frames;
+    nontrivial += ex.y_complete_delivered;
+    per_class.insert("expired-then-reused".into(), ex.evidence);
     rep.add_count("states", cases);
     rep.add_count("transitions", cases);
     rep.add_count("evaluations", cases);
@@ -650,6 +659,9 @@ pub(crate) fn run_rx(rep: &mut Report, tier: Tier) {
 }
 
 pub(crate) fn replay(r: &Value) -> i32 {
+    if r["class"].as_str() == Some("expired-then-reused") {
+        return replay_expiry(r);
+    }
     let parse = || -> Option<(Family, Vec<u8>)> {
         let dgs: Vec<Dg> = r["dgs"]
             .as_array()?
@@ -708,6 +720,313 @@ pub(crate) fn replay(r: &Value) -> i32 {
     }
     let (viols, demanded) = judge(&fam, &order, &res);
     println!("delivery demanded: {:?}; exact deliveries: {:?}; bad deliveries: {:?}; frames emitted by the stack: {}", demanded, res.exact, res.bad, res.tx_frames);
+    if viols.is_empty() {
+        println!("no violation on replay");
+        0
+    } else {
+        for v in viols {
+            println!("violation: {} :: {}", v.sig, v.detail);
+        }
+        1
+    }
+}
+
+// ---------------------------------------------------------------------------------------
+// family "expired-then-reused": the only place where time passes
+// ---------------------------------------------------------------------------------------
+
+/// Datagram X arrives partially (a hole remains) at t=0; the clock jumps by `gap_ms`; datagram Y
+/// (same size, same cuts, other salt; other id or the SAME id) arrives, complete in some order or
+/// with one fragment missing.
+#[derive(Clone, Debug)]
+pub(crate) struct ExpiryCase {
+    pub raw: bool,
+    pub zero_cksum: bool,
+    /// fragments per datagram: n-1 pieces of 8 bytes + 5
+    pub n: usize,
+    /// fragment indices of X that arrive, in order (non-empty proper subset)
+    pub x_order: Vec<u8>,
+    pub gap_ms: i64,
+    pub same_id: bool,
+    /// fragment indices of Y that arrive, in order (all n, or all but one)
+    pub y_order: Vec<u8>,
+}
+
+impl ExpiryCase {
+    fn family(&self) -> Family {
+        let (total, cuts) = cuts_of(self.n, 8, 5);
+        let x = Dg { id: 0x3300, len: total, salt: 7, cuts: cuts.clone(), dst: OUR_IP, sport: Some(RX_SPORT_BASE), zero_cksum: self.zero_cksum };
+        let y = Dg { id: if self.same_id { 0x3300 } else { 0x3301 }, len: total, salt: 9, cuts, dst: OUR_IP, sport: Some(RX_SPORT_BASE), zero_cksum: self.zero_cksum };
+        Family { class: "expired-then-reused", raw: self.raw, eth: false, dgs: vec![x, y], items: vec![], label: self.label() }
+    }
+    fn label(&self) -> String {
+        format!(
+            "expired-then-reused {} n={} X arrives {:?}, +{} ms, Y ({} id) arrives {:?}",
+            if self.raw { "raw".to_string() } else { format!("udp(cksum {})", if self.zero_cksum { "0" } else { "valid" }) },
+            self.n,
+            self.x_order,
+            self.gap_ms,
+            if self.same_id { "same" } else { "other" },
+            self.y_order
+        )
+    }
+    fn y_complete(&self) -> bool {
+        self.y_order.len() == self.n
+    }
+    fn to_json(&self) -> Value {
+        json!({"part": "rx", "class": "expired-then-reused", "raw": self.raw, "zero_cksum": self.zero_cksum, "n": self.n, "x_order": self.x_order,
+            "gap_ms": self.gap_ms, "same_id": self.same_id, "y_order": self.y_order, "label": self.label()})
+    }
+    fn from_json(r: &Value) -> Option<ExpiryCase> {
+        let arr = |v: &Value| -> Option<Vec<u8>> { Some(v.as_array()?.iter().map(|x| x.as_u64().unwrap_or(0) as u8).collect()) };
+        Some(ExpiryCase {
+            raw: r["raw"].as_bool()?,
+            zero_cksum: r["zero_cksum"].as_bool()?,
+            n: r["n"].as_u64()? as usize,
+            x_order: arr(&r["x_order"])?,
+            gap_ms: r["gap_ms"].as_i64()?,
+            same_id: r["same_id"].as_bool()?,
+            y_order: arr(&r["y_order"])?,
+        })
+    }
+}
+
+/// (result, reassembly timeout in ms as reported by the interface)
+pub(crate) fn run_expiry_case(c: &ExpiryCase) -> (RxResult, i64) {
+    let fam = c.family();
+    let mut res = RxResult { exact: vec![0; 2], bad: vec![], tx_frames: 0, polls: 0, machinery: None };
+    let mut net = match Net::new(false, 1500) {
+        Ok(n) => n,
+        Err(e) => {
+            res.machinery = Some(e);
+            return (res, 0);
+        }
+    };
+    let timeout_ms = net.iface.reassembly_timeout().total_millis() as i64;
+    let h = if c.raw { net.add_raw(4, 8192, 1, 64) } else { net.add_udp(RX_UDP_PORT, 4, 8192, 1, 64) };
+    let proto = if c.raw { PROTO_RAW } else { PROTO_UDP };
+    let payloads: Vec<Vec<u8>> = fam.dgs.iter().enumerate().map(|(i, d)| d.ip_payload(c.raw, i)).collect();
+    let t0 = Instant::from_millis(0);
+    for &i in &c.x_order {
+        let dg = &fam.dgs[0];
+        net.inject(fragment(dg.id, proto, PEER_IP, dg.dst, &payloads[0], &[dg.cuts[i as usize]]).pop().unwrap());
+        net.poll_t(t0);
+    }
+    // nothing may have been delivered yet; then the clock jumps (a poll without traffic lets
+    // the interface expire what is due)
+    let t1 = Instant::from_millis(c.gap_ms);
+    net.poll_t(t1);
+    for &i in &c.y_order {
+        let dg = &fam.dgs[1];
+        net.inject(fragment(dg.id, proto, PEER_IP, dg.dst, &payloads[1], &[dg.cuts[i as usize]]).pop().unwrap());
+        net.poll_t(t1);
+    }
+    net.poll_t(t1);
+    res.tx_frames = net.dev.tx.len();
+    res.polls = net.polls;
+    drain(&mut net, h, &fam, &payloads, &mut res);
+    (res, timeout_ms)
+}
+
+/// Verdict. Returns (violations, delivery of Y demanded).
+/// * X never completes (a hole remains), so X must never be delivered, before or after expiry.
+/// * Y with a missing fragment must not be delivered at all: nothing X left behind (ranges, total
+///   size, bytes) may complete it. This holds for every gap when the ids differ, and after the
+///   expiry when the id is re-used.
+/// * Complete Y must be delivered when the clock passed the timeout (gap > timeout: the source
+///   expires with `expires_at < now`, src/iface/fragmentation.rs remove_expired) -- the slot is
+///   free again. For gap <= timeout X is still pending (or, exactly at the boundary, may be:
+///   lenient): with REASSEMBLY_BUFFER_COUNT = 1 the only slot is busy and "nothing" is acceptable;
+///   with >= 2 slots Y (other id) has a slot of its own and is demanded.
+/// * A re-used id before the expiry is not generated: the receiver cannot tell X's and Y's
+///   fragments apart then, a mix would be legitimate.
+pub(crate) fn judge_expiry(c: &ExpiryCase, res: &RxResult, timeout_ms: i64) -> (Vec<Viol>, bool) {
+    let mut v = vec![];
+    let label = c.label();
+    for (cause, text) in &res.bad {
+        v.push(Viol::new(format!("C12/rx/exact/{}", cause), format!("{}: {}", label, text)));
+    }
+    if res.exact[0] > 0 {
+        v.push(Viol::new("C12/rx/exact/incomplete-expired-datagram-delivered", format!("{}: datagram X was delivered although it never arrived completely", label)));
+    }
+    let y_max = c.y_complete() as u32;
+    if res.exact[1] > y_max {
+        v.push(Viol::new(
+            "C12/rx/once/delivered-more-often-than-complete-sets-arrived",
+            format!("{}: datagram Y delivered {} time(s), {} complete set(s) arrived", label, res.exact[1], y_max),
+        ));
+    }
+    // range limit for Y alone (always satisfied for n <= 2*limit, kept general)
+    let limit = smoltcp::config::ASSEMBLER_MAX_SEGMENT_COUNT;
+    let mut present = vec![false; c.n];
+    let mut within_limit = true;
+    for &i in &c.y_order {
+        present[i as usize] = true;
+        let runs = (0..c.n).filter(|&k| present[k] && (k == 0 || !present[k - 1])).count();
+        within_limit &= runs <= limit;
+    }
+    let expired = c.gap_ms > timeout_ms;
+    let slot_free = expired || (!c.same_id && smoltcp::config::REASSEMBLY_BUFFER_COUNT >= 2);
+    let demanded = c.y_complete() && within_limit && slot_free;
+    if demanded && res.exact[1] == 0 && res.bad.is_empty() {
+        v.push(Viol::new(
+            "C12/rx/deliver/not-delivered-expired-then-reused",
+            format!("{}: all fragments of Y arrived {} but Y was not delivered", label, if expired { "after X had expired" } else { "and a second reassembly slot exists" }),
+        ));
+    }
+    (v, demanded)
+}
+
+pub(crate) struct ExpirySummary {
+    pub cases: u64,
+    pub frames: u64,
+    pub y_complete_delivered: u64,
+    pub evidence: Value,
+}
+
+fn all_orders(items: &[u8]) -> Vec<Vec<u8>> {
+    let mut cur = items.to_vec();
+    cur.sort();
+    let mut out = vec![];
+    loop {
+        out.push(cur.clone());
+        if !next_permutation(&mut cur) {
+            break;
+        }
+    }
+    out
+}
+
+pub(crate) fn expiry_cases(tier: Tier) -> Vec<ExpiryCase> {
+    // the interface default; run_expiry_case reads the real value and judge_expiry uses that
+    let timeout_ms = 60_000i64;
+    let ns: Vec<usize> = if tier == Tier::Thorough { vec![3, 4, 5] } else { vec![3, 4] };
+    let mut v = vec![];
+    for (raw, zero) in [(false, true), (false, false), (true, false)] {
+        for &n in &ns {
+            // X: every non-empty proper subset with at most 3 fragments, in every order
+            let mut x_orders: Vec<Vec<u8>> = vec![];
+            for mask in 1u32..(1 << n) - 1 {
+                let set: Vec<u8> = (0..n as u8).filter(|i| mask & (1 << i) != 0).collect();
+                if set.len() <= 3 {
+                    x_orders.extend(all_orders(&set));
+                }
+            }
+            let full: Vec<u8> = (0..n as u8).collect();
+            for (same_id, gap) in [(false, timeout_ms - 1000), (false, timeout_ms), (false, timeout_ms + 1000), (true, timeout_ms + 1000)] {
+                for xo in &x_orders {
+                    // Y complete, every order
+                    for yo in all_orders(&full) {
+                        v.push(ExpiryCase { raw, zero_cksum: zero, n, x_order: xo.clone(), gap_ms: gap, same_id, y_order: yo });
+                    }
+                    // Y without a fragment that X did deliver, every order of the rest
+                    let mut missing = xo.clone();
+                    missing.sort();
+                    for m in missing {
+                        let rest: Vec<u8> = full.iter().copied().filter(|&i| i != m).collect();
+                        for yo in all_orders(&rest) {
+                            v.push(ExpiryCase { raw, zero_cksum: zero, n, x_order: xo.clone(), gap_ms: gap, same_id, y_order: yo });
+                        }
+                    }
+                }
+            }
+        }
+    }
+    v
+}
+
+pub(crate) fn run_expiry_caught(c: &ExpiryCase) -> Result<(RxResult, i64), Viol> {
+    std::panic::catch_unwind(std::panic::AssertUnwindSafe(|| run_expiry_case(c))).map_err(|e| {
+        Viol::new(
+            format!("C12/panic/rx/{}", stable_site(&panic_site())),
+            format!("{}: panic while delivering the fragments: {} at {}", c.label(), panic_msg(e), last_panic_loc()),
+        )
+    })
+}
+
+pub(crate) fn run_expiry(rep: &mut Report, tier: Tier) -> ExpirySummary {
+    use rayon::prelude::*;
+    let cases = expiry_cases(tier);
+    struct R {
+        viols: Vec<Viol>,
+        y: u32,
+        demanded: bool,
+        machinery: Option<String>,
+        panicked: bool,
+        timeout_ms: i64,
+    }
+    let results: Vec<R> = cases
+        .par_iter()
+        .map(|c| match run_expiry_caught(c) {
+            Ok((res, t)) => {
+                let (viols, demanded) = judge_expiry(c, &res, t);
+                R { viols, y: res.exact[1], demanded, machinery: res.machinery, panicked: false, timeout_ms: t }
+            }
+            Err(v) => R { viols: vec![v], y: 0, demanded: false, machinery: None, panicked: true, timeout_ms: 0 },
+        })
+        .collect();
+    let mut frames = 0u64;
+    let mut out: BTreeMap<&'static str, u64> = BTreeMap::new();
+    let mut per_gap: BTreeMap<String, u64> = BTreeMap::new();
+    let mut timeout_seen = 0i64;
+    for (c, r) in cases.iter().zip(results.iter()) {
+        frames += (c.x_order.len() + c.y_order.len()) as u64;
+        timeout_seen = timeout_seen.max(r.timeout_ms);
+        let k = match (c.y_complete(), r.demanded, r.y > 0, r.panicked) {
+            (_, _, _, true) => "panicked",
+            (true, true, true, _) => "Y_complete/demanded/delivered_exact",
+            (true, true, false, _) => "Y_complete/demanded/nothing",
+            (true, false, true, _) => "Y_complete/not_demanded(slot_busy)/delivered_exact",
+            (true, false, false, _) => "Y_complete/not_demanded(slot_busy)/nothing",
+            (false, _, true, _) => "Y_one_fragment_missing/delivered",
+            (false, _, false, _) => "Y_one_fragment_missing/nothing",
+        };
+        *out.entry(k).or_insert(0) += 1;
+        *per_gap.entry(format!("{} id, +{} ms", if c.same_id { "same" } else { "other" }, c.gap_ms)).or_insert(0) += 1;
+        if let Some(m) = &r.machinery {
+            if rep.machinery_errors.len() < 5 {
+                rep.machinery_errors.push(format!("rx expiry {}: {}", c.label(), m));
+            }
+        }
+        for v in &r.viols {
+            rep.violation(v.sig.clone(), format!("[rx] {}", v.detail), c.to_json());
+        }
+    }
+    if let Some(i) = cases.iter().position(|c| c.n == 4 && c.x_order == [0, 2] && c.gap_ms > 60_000 && !c.same_id && c.y_order == [0, 1, 3]) {
+        rep.samples.push(json!({"part": "rx", "class": "expired-then-reused", "case": cases[i].label(), "Y_delivered": results[i].y, "demanded": results[i].demanded}));
+    }
+    let y_ok = *out.get("Y_complete/demanded/delivered_exact").unwrap_or(&0);
+    ExpirySummary {
+        cases: cases.len() as u64,
+        frames,
+        y_complete_delivered: y_ok,
+        evidence: json!({"what": "X (n-1 pieces of 8 bytes + 5) arrives partially at t=0: every non-empty proper subset of <= 3 fragments in every order; the clock jumps; Y (same size and cuts, other salt) arrives: every permutation of all fragments, and every permutation of all-but-one for each fragment X had delivered",
+            "fragments_per_datagram": if tier == Tier::Thorough { json!([3, 4, 5]) } else { json!([3, 4]) },
+            "socket_variants": ["udp checksum 0", "udp checksum valid", "raw"],
+            "reassembly_timeout_ms_reported_by_interface": timeout_seen,
+            "cases": cases.len(), "cases_per_id_and_gap": per_gap, "fragments_injected": frames, "outcomes": out}),
+    }
+}
+
+fn replay_expiry(r: &Value) -> i32 {
+    let Some(c) = ExpiryCase::from_json(r) else {
+        eprintln!("MACHINERY ERROR: bad expired-then-reused artefact");
+        return 2;
+    };
+    println!("rx case: {}", c.label());
+    let (res, t) = match run_expiry_caught(&c) {
+        Ok(x) => x,
+        Err(v) => {
+            println!("violation: {} :: {}", v.sig, v.detail);
+            return 1;
+        }
+    };
+    if let Some(m) = &res.machinery {
+        eprintln!("MACHINERY ERROR: {}", m);
+        return 2;
+    }
+    let (viols, demanded) = judge_expiry(&c, &res, t);
+    println!("reassembly timeout {} ms; delivery of Y demanded: {}; exact deliveries [X, Y]: {:?}; bad deliveries: {:?}", t, demanded, res.exact, res.bad);
     if viols.is_empty() {
         println!("no violation on replay");
         0
